@@ -19,8 +19,8 @@ fn is_void_element(local_name: &LocalName<'_>, enable_esi_tags: bool) -> bool {
     if tag_is_one_of!(
         *local_name,
         [
-            Area, Base, Basefont, Bgsound, Br, Col, Embed, Hr, Img, Input, Keygen, Link, Meta,
-            Param, Source, Track, Wbr
+            Area, Base, Basefont, Bgsound, Br, Col, Embed, Frame, Hr, Img, Input, Keygen, Link,
+            Meta, Param, Source, Track, Wbr
         ]
     ) {
         return true;
